@@ -261,6 +261,99 @@ def rule_cascade(ctx: Ctx) -> RuleResult:
     return rr
 
 
+def rule_cleanup(ctx: Ctx) -> RuleResult:
+    """CanvasCache.cleanup (the weak-reference callback) forgets ONE canvas of a widget.  The widget's dependency
+    edge in _deps serves all its cached canvases: it may go only together with the widget's whole entry in _widgets,
+    i.e. under exactly the conditions under which `_widgets[widget]` is removed."""
+    p = ctx.p
+    rr = RuleResult("PAIR", "C06.6", "cleanup() drops a widget's _deps entry under exactly the conditions under which it drops the widget's _widgets entry (the last cached canvas is gone)", floor=2)
+    fi = p.func("urwid.canvas.CanvasCache.cleanup")
+    cfg = cfg_of(fi)
+
+    def removals(attr):
+        out = []
+        for n in cfg.nodes:
+            a = n.ast
+            if isinstance(a, ast.Delete) and any(isinstance(t, ast.Subscript) and ast.unparse(t.value).endswith("." + attr) for t in a.targets):
+                out.append(n)
+            elif a is not None and n.kind not in ("for", "with", "handler"):
+                for c in walk_no_nested(a):
+                    if isinstance(c, ast.Call) and isinstance(c.func, ast.Attribute) and c.func.attr in ("pop", "clear", "popitem") and ast.unparse(c.func.value).endswith("." + attr):
+                        out.append(n)
+        return out
+
+    def controlling(node):
+        from ..rules.exc import ExcEngine
+
+        out = set()
+        for t in cfg.nodes:
+            if t.kind != "test":
+                continue
+            for lab in ("T", "F"):
+                if node not in ExcEngine._reach_without_edge(cfg, t, lab):
+                    out.add((norm(t.ast, 60), lab))
+        return out
+
+    W, D = removals("_widgets"), removals("_deps")
+    rr.inst("removals found", True, {"_widgets": [norm(n.stmt, 50) for n in W], "_deps": [norm(n.stmt, 50) for n in D]})
+    if not W or not D:
+        raise AnalysisError("CanvasCache.cleanup: the removals from _widgets / _deps were not found")
+    cw = set.intersection(*[controlling(n) for n in W])
+    for d in D:
+        cd = controlling(d)
+        rr.inst(f"deps removal {norm(d.stmt, 40)}", True, {"removal": norm(d.stmt, 50), "under": sorted(f"{t} is {lab}" for t, lab in cd)})
+        if cd != cw:
+            rr.add(finding("PAIR", fi, d.stmt, f"`{norm(d.stmt, 50)}` runs under {sorted(f'{t}={lab}' for t, lab in cd) or 'no condition'}, the widget's _widgets entry is dropped under {sorted(f'{t}={lab}' for t, lab in cw)}: when one of several cached canvases of a widget is collected its ancestors lose the dependency edge and keep serving stale canvases after the widget changes", construct=f"_deps dropped under other conditions than _widgets: {norm(d.stmt, 50)}"))
+    return rr
+
+
+def rule_memo_children(ctx: Ctx) -> RuleResult:
+    """A container that memoises a layout under its size (`if maxcol == self._cache_maxcol: return self._cache_x`)
+    is told about its own mutations through its _invalidate(); a *child's* change reaches it only through the canvas
+    cache cascade, which does not call the container's _invalidate().  So a memoised computation that asks a child
+    (w.pack(), w.rows()) must not be answered from the memo: the memo-hit test has to exclude every case in which a
+    child is consulted (it mentions the same option constant the child query is guarded by)."""
+    p = ctx.p
+    rr = RuleResult("MEMO", "C06.7", "a size-keyed layout memo is not used in the cases where the memoised computation consults a child widget", floor=1)
+    QUERIES = {"pack", "rows", "render"}
+    for C in inv.widget_classes(p):
+        for fi in C.methods.values():
+            cfg = None
+            sn = fi.self_name
+            hits = []
+            for n in fi.own_nodes():
+                if isinstance(n, ast.If) and len(n.body) == 1 and isinstance(n.body[0], ast.Return) and isinstance(n.body[0].value, ast.Attribute) and isinstance(n.body[0].value.value, ast.Name) and n.body[0].value.value.id == sn and "cache" in n.body[0].value.attr:
+                    if any(isinstance(c, ast.Compare) and any(isinstance(x, ast.Attribute) and isinstance(x.value, ast.Name) and x.value.id == sn and "cache" in x.attr for x in ast.walk(c)) for c in ast.walk(n.test)):
+                        hits.append(n)
+            if not hits:
+                continue
+            cfg = cfg_of(fi)
+            from ..rules.exc import ExcEngine
+
+            # child queries and the option constants they are guarded by
+            need = {}
+            for node in cfg.nodes:
+                if node.ast is None or node.kind in ("for", "with", "handler"):
+                    continue
+                for c in walk_no_nested(node.ast):
+                    if isinstance(c, ast.Call) and isinstance(c.func, ast.Attribute) and c.func.attr in QUERIES and not (isinstance(c.func.value, ast.Name) and c.func.value.id == sn) and not (isinstance(c.func.value, ast.Call)):
+                        guards = set()
+                        for t in cfg.nodes:
+                            if t.kind == "test" and node not in ExcEngine._reach_without_edge(cfg, t, "T"):
+                                for x in ast.walk(t.ast):
+                                    if isinstance(x, ast.Attribute) and isinstance(x.value, ast.Name) and x.value.id[:1].isupper() and x.attr.isupper():
+                                        guards.add(ast.unparse(x))
+                        need[norm(c, 50)] = guards
+            for h in hits:
+                cond = ast.unparse(h.test)
+                rr.inst(f"{short(fi)}:memo hit", True, {"function": short(fi), "memo_hit_test": norm(h.test, 90), "child_queries": {k: sorted(v) for k, v in need.items()}})
+                for q, guards in need.items():
+                    if not guards or not any(g in cond for g in guards):
+                        rr.add(finding("MEMO", fi, h, f"the memoised result is returned under `{norm(h.test, 80)}` although computing it asks a child (`{q}`{', guarded by ' + '/'.join(sorted(guards)) if guards else ''}): a child that changes its own size invalidates the canvases above it but not this memo, so the stale widths are used for the re-rendering", construct=f"memo hit does not exclude the child query {q}"))
+                        break
+    return rr
+
+
 def _class_flag(C, name):
     """value of a boolean class-body attribute (`ignore_focus = True`), None when the class body does not set it"""
     for st in C.node.body:
@@ -344,6 +437,8 @@ def run(ctx: Ctx):
         rule_listbox_body(ctx),
         rule_cascade(ctx),
         rule_layered_cache(ctx),
+        rule_cleanup(ctx),
+        rule_memo_children(ctx),
     ]
     return out
 
@@ -360,5 +455,8 @@ MUTANTS = [
     Mut("cache-rows-ignores-focus-mask", "urwid/widget/widget.py", "cache_widget_rows", "        focus = focus and not ignore_focus\n", "", "SIB|"),
     Mut("edit-render-flag-without-invalidate", "urwid/widget/edit.py", "Edit.render", "        if self._shift_view_to_cursor != bool(focus):\n            # The inherited Text rendering is cached without regard to focus: drop it when the view shift changes\n            self._shift_view_to_cursor = bool(focus)\n            self._invalidate()\n", "        self._shift_view_to_cursor = bool(focus)\n", "INV-LAYER|widget.edit.Edit.render"),
     Mut("edit-cursor-coords-flag-without-invalidate", "urwid/widget/edit.py", "Edit.get_cursor_coords", "        if not self._shift_view_to_cursor:\n            self._shift_view_to_cursor = True\n            self._invalidate()\n", "        self._shift_view_to_cursor = True\n", "INV-LAYER|widget.edit.Edit.get_cursor_coords"),
+    Mut("cleanup-drops-deps-early", "urwid/canvas.py", "CanvasCache.cleanup", "        if not sizes:\n            with contextlib.suppress(KeyError):\n                del cls._widgets[widget]\n                del cls._deps[widget]", "        cls._deps.pop(widget, None)\n        if not sizes:\n            with contextlib.suppress(KeyError):\n                del cls._widgets[widget]", "PAIR|canvas.CanvasCache.cleanup"),
+    Mut("twin-cleanup-pop-form", "urwid/canvas.py", "CanvasCache.cleanup", "            with contextlib.suppress(KeyError):\n                del cls._widgets[widget]\n                del cls._deps[widget]", "            cls._widgets.pop(widget, None)\n            cls._deps.pop(widget, None)", twin=True),
+    Mut("columns-memo-with-pack-columns", "urwid/widget/columns.py", "Columns.column_widths", "if maxcol == self._cache_maxcol and not any(t == WHSettings.PACK for w, (t, n, b) in self.contents):", "if maxcol == self._cache_maxcol:", "MEMO|widget.columns.Columns.column_widths"),
     Mut("twin-pad-copy-slice", "urwid/canvas.py", "CompositeCanvas.pad_trim_top_bottom", "self.shards = self.shards.copy()", "self.shards = self.shards[:]", twin=True),
 ]
